@@ -9,12 +9,15 @@ From SC Require Import Lib.Prelude Lib.Int Lib.Host Model.Rwa Model.RwaComplianc
   Run.C04Compliance Run.C04Identity Run.C04Token.
 
 Inductive scall :=
-| STok (o : op) (auths : list addr) (deny : list addr) (w : iworld)
-    (* a call of the token; [deny] = the compliance modules that refuse during it;
+| STokF (o : op) (auths : list addr) (deny : list addr) (fail : list addr) (w : iworld)
+    (* a call of the token; [deny] = the compliance modules that refuse during it (answer false);
+       [fail] = the compliance modules that fail during it (trap / cannot be invoked);
        [w] = the state of the identity registries as read through their getters just before *)
 | SCmp (c : ccall)          (* an administrative call of the compliance contract *)
 | SEdit.                    (* an edit of an identity registry (add / remove topic, issuer, identity,
                                claim; revoke): not modelled, its effect is in the next observed [w] *)
+(* a token call during which no compliance module fails *)
+Definition STok (o : op) (auths deny : list addr) (w : iworld) : scall := STokF o auths deny [] w.
 
 Record sobs := mkSObs { so_tok : obs; so_cmp : cobs }.
 Record sitem := SI { si_call : scall; si_out : res ret; si_obs : sobs }.
@@ -23,34 +26,40 @@ Record strace := mkST {
   st_tok : addr;                         (* the token's own address, as the compliance contract sees it *)
   st_items : list sitem }.
 
+(* a token call of the stack whose transfer destination was sent as a MuxedAddress with id [id] *)
+Definition SIMux (id : Z) (c : scall) (o : res ret) (b : sobs) : sitem :=
+  SI (match c with STokF op au deny fail w => STokF (mux_op id op) au deny fail w | c' => c' end) o b.
+
 Record sstate := mkSS { ss_tok : state; ss_cmp : cstate }.
 Definition sinit : sstate := mkSS init cinit.
 
 (* ------------------------------------------------------------------ *)
 (* the composition                                                      *)
 
-(* the collaborators' answers, computed by the other two models *)
-Definition orc_of (univ : list addr) (cst : cstate) (deny : list addr) (w : iworld) : oracle :=
+(* the collaborators' answers, computed by the other two models; a compliance query that traps
+   (a module asked fails) is no approval: the token call fails as a whole *)
+Definition answer (r : res (bool * cstate)) : bool := match r with Ok (b, _) => b | Fail => false end.
+Definition orc_of (univ : list addr) (cst : cstate) (fail deny : list addr) (w : iworld) : oracle :=
   mkOracle (filter (fun a => is_ok (iverify_identity w a)) univ)
-           (fst (ask_all deny (mods cst HCanTransfer) (MCanTransfer 0 0 0 0)%N cst))
-           (fst (ask_all deny (mods cst HCanCreate) (MCanCreate 0 0 0)%N cst))
+           (answer (ask_all_f fail deny (mods cst HCanTransfer) (MCanTransfer 0 0 0 0)%N cst))
+           (answer (ask_all_f fail deny (mods cst HCanCreate) (MCanCreate 0 0 0)%N cst))
            (w_recovered w).
 
 (* what the token asks / tells the compliance contract goes through the compliance model, the
    token being the caller *)
-Definition feed_event (tok : addr) (deny : list addr) (e : cev) (cst : cstate) : res cstate :=
+Definition feed_event (tok : addr) (fail deny : list addr) (e : cev) (cst : cstate) : res cstate :=
   match e with
-  | QCanTransfer f t a => Ok (snd (ask_all deny (mods cst HCanTransfer) (MCanTransfer f t a tok) cst))
-  | QCanCreate t a => Ok (snd (ask_all deny (mods cst HCanCreate) (MCanCreate t a tok) cst))
-  | NTransferred f t a => hook_notify [tok] HTransferred (MOnTransfer f t a tok) tok cst
-  | NCreated t a => hook_notify [tok] HCreated (MOnCreated t a tok) tok cst
-  | NDestroyed f a => hook_notify [tok] HDestroyed (MOnDestroyed f a tok) tok cst
+  | QCanTransfer f t a => do bs <- ask_all_f fail deny (mods cst HCanTransfer) (MCanTransfer f t a tok) cst; Ok (snd bs)
+  | QCanCreate t a => do bs <- ask_all_f fail deny (mods cst HCanCreate) (MCanCreate t a tok) cst; Ok (snd bs)
+  | NTransferred f t a => hook_notify fail [tok] HTransferred (MOnTransfer f t a tok) tok cst
+  | NCreated t a => hook_notify fail [tok] HCreated (MOnCreated t a tok) tok cst
+  | NDestroyed f a => hook_notify fail [tok] HDestroyed (MOnDestroyed f a tok) tok cst
   | CBadToken => Fail
   end.
-Fixpoint feed (tok : addr) (deny : list addr) (l : list cev) (cst : cstate) : res cstate :=
+Fixpoint feed (tok : addr) (fail deny : list addr) (l : list cev) (cst : cstate) : res cstate :=
   match l with
   | [] => Ok cst
-  | e :: r => do cst' <- feed_event tok deny e cst; feed tok deny r cst'
+  | e :: r => do cst' <- feed_event tok fail deny e cst; feed tok fail deny r cst'
   end.
 
 Definition sstep (hc : hostcfg) (cf : ccfg) (univ : list addr) (tok : addr) (ss : sstate) (c : scall)
@@ -58,14 +67,15 @@ Definition sstep (hc : hostcfg) (cf : ccfg) (univ : list addr) (tok : addr) (ss 
   let s0 := clear_logs (ss_tok ss) in
   let c0 := cclear (ss_cmp ss) in
   match c with
-  | STok o au deny w =>
-      let '(s', out) := step hc (ss_tok ss) (mkCall o au (fun _ => orc_of univ c0 deny w)) in
+  | STokF o au deny fail w =>
+      let '(s', out) := step hc (ss_tok ss) (mkCall o au (fun _ => orc_of univ c0 fail deny w)) in
       match out with
       | Fail => (mkSS s0 c0, Fail)
       | Ok r =>
-          match feed tok deny (cmp_log s') c0 with
+          match feed tok fail deny (cmp_log s') c0 with
           | Ok c' => (mkSS s' c', Ok r)
-          | Fail => (mkSS s0 c0, Fail)        (* the compliance contract rejected a notification: everything rolls back *)
+          | Fail => (mkSS s0 c0, Fail)        (* the compliance contract rejected a notification (token not bound, or
+                                                 a module notified fails): everything rolls back *)
           end
       end
   | SCmp cc => let '(c', out) := cstep cf (ss_cmp ss) cc in (mkSS s0 c', out)
@@ -100,7 +110,9 @@ Fixpoint sdiff_from hc cf univ tok (ss : sstate) (items : list sitem) (i : N) : 
    of a trusted issuer), EVERY compliance module registered for CanTransfer approving, and the token
    bound to the compliance contract; the modules registered for CanTransfer were each asked once
    and those registered for Transferred each notified once, with the exact parties and amount and
-   the token's address.  Likewise mint (recipient verified, CanCreate modules), burn, forced
+   the token's address; NONE of these modules failed (a module that traps, cannot be invoked or
+   does not return a bool is neither an approval nor a delivered notification: [hooks_of],
+   [none_fails]).  Likewise mint (recipient verified, CanCreate modules), burn, forced
    transfer, recovery (target verified and registered in the registry).  Plus everything the token
    monitor says about balances, frozen amounts, flags, pause, links, and the compliance monitor
    about its administrative calls. *)
@@ -166,6 +178,20 @@ Definition expected_mlog (lk : addr -> option acct) (pc : cobs) (tok : addr) (o 
       end
   | _ => Some []
   end.
+(* the hooks of the compliance contract a successful token call goes through: every module
+   registered for one of them was invoked, so none of them may be a failing one *)
+Definition hooks_of (o : op) (r : ret) : list hook :=
+  match o with
+  | Transfer _ _ _ | TransferFrom _ _ _ _ => [HCanTransfer; HTransferred]
+  | ForcedTransfer _ _ _ _ => [HTransferred]
+  | Mint _ _ _ => [HCanCreate; HCreated]
+  | Burn _ _ _ => [HDestroyed]
+  | RecoverBalance _ _ _ => match r with Some true => [HTransferred] | _ => [] end
+  | _ => []
+  end.
+Definition none_fails (fail : list addr) (pc : cobs) (o : op) (r : ret) : bool :=
+  forallb (fun h => negb (any_fail fail (mods_of pc h))) (hooks_of o r).
+
 (* does the call notify the compliance contract (which accepts that from a bound token only) *)
 Definition notifies (o : op) (r : ret) : bool :=
   match o with
@@ -195,7 +221,7 @@ Definition smon_step (cf : ccfg) (univ : list addr) (tok : addr) (prev : sobs) (
   && match si_call it with
      | SCmp c => cmon_step cf [tok] pc (CI c (si_out it) cc) && tok_unchanged pt ct
      | SEdit => tok_unchanged pt ct && cmp_unchanged pc cc && no_mlog cc
-     | STok o au deny w =>
+     | STokF o au deny fail w =>
          let c := mkCall o au (fun _ => mkOracle [] false false (w_recovered w)) in
          wf_call univ c
          && links_ok pt ct c (is_ok (si_out it))
@@ -208,6 +234,7 @@ Definition smon_step (cf : ccfg) (univ : list addr) (tok : addr) (prev : sobs) (
                 && no_mlog cc
             | Ok r =>
                 sgates_ok lk la la' w deny pc pt o au r
+                && none_fails fail pc o r
                 && accts_ok lk c r P Q
                 && Bool.eqb (ob_paused ct) (paused_after pt c)
                 && (if notifies o r
@@ -229,7 +256,7 @@ Fixpoint smon_from cf univ tok (prev : sobs) (items : list sitem) (i : N) : N :=
 (* well-formed calls: parties inside the observed universe, the compliance calls about this token *)
 Definition swf (univ : list addr) (tok : addr) (c : scall) : bool :=
   match c with
-  | STok o au _ w => wf_call univ (mkCall o au (fun _ => mkOracle [] false false (w_recovered w)))
+  | STokF o au _ _ w => wf_call univ (mkCall o au (fun _ => mkOracle [] false false (w_recovered w)))
   | SCmp cc => cwf_call [tok] cc
   | SEdit => true
   end.
